@@ -8,6 +8,7 @@ import DaskModel.Model.Pickle
 import DaskModel.Model.ExecGraph
 import DaskModel.Model.OrderIO
 import DaskModel.Model.RenameIO
+import DaskModel.Model.CloneKeys
 import DaskModel.Model.SpecOptIO
 import DaskModel.Model.LegacyInlineIO
 open Dask
@@ -252,6 +253,6 @@ def table : List (String × Handler) :=
    ("clone_legacy", TermDrv.hCloneLegacy), ("clone_spec", TermDrv.hCloneSpec),
    ("checkpoint_reduce", TermDrv.hCheckpointReduce)]
   ++ Dask.Order.ioHandlers ++ Dask.TaskTerm.renameIoHandlers ++ Dask.TaskTerm.specIoHandlers
-  ++ Dask.TaskTerm.inlineIoHandlers
+  ++ Dask.TaskTerm.inlineIoHandlers ++ Dask.TaskTerm.cloneKeysIoHandlers
 
 def main : IO Unit := runDriver table
